@@ -27,7 +27,7 @@ fn ev_name(id: u32) -> &'static str {
         10 => "CTRL_PAUSE", 11 => "CTRL_RESUME", 12 => "CTRL_INTERRUPT", 13 => "CTRL_SUSPEND",
         15 => "SCAN_BEGIN", 16 => "SCAN_END", 17 => "THREAD_START", 18 => "THREAD_EXIT", 19 => "SPAWNED",
         20 => "REGISTERED", 21 => "RAISED", 22 => "STW_BEGIN", 23 => "STW_END", 24 => "ENV_WRITE_BEGIN",
-        25 => "ENV_WRITE_END", 26 => "UNPARK", 27 => "HEAP_LOCKED", 28 => "REGISTERING", _ => "?",
+        25 => "ENV_WRITE_END", 26 => "UNPARK", 27 => "HEAP_LOCKED", 28 => "REGISTERING", 29 => "ENUM_WAIT", _ => "?",
     }
 }
 /// events whose `a` is the identity of the CALLING thread
